@@ -234,15 +234,24 @@ func verdict(t drv.TB, part string, c Case, r result) {
 
 // ---- generators
 
+// genGraph draws a pipeline. Stage names are unique within a pipeline only: with reuse set, nested
+// pipelines use the same short names as their parents (ids, i.e. task names, stay unique).
 func genGraph(rt *rapid.T, prefix string, maxN, depth int, condErr bool) *Gr {
 	n := rapid.IntRange(1, maxN).Draw(rt, "n")
 	density := rapid.IntRange(0, 3).Draw(rt, "density")
+	reuse := rapid.Bool().Draw(rt, "reuse-stage-names-across-levels")
+	name := func(i int) string {
+		if reuse {
+			return fmt.Sprintf("s%d", i)
+		}
+		return fmt.Sprintf("%s%d", prefix, i)
+	}
 	sts := make([]*St, n)
 	for i := 0; i < n; i++ {
-		s := &St{Name: fmt.Sprintf("%s%d", prefix, i)}
+		s := &St{Name: name(i), ID: fmt.Sprintf("%s%d", prefix, i)}
 		for j := 0; j < i; j++ {
 			if rapid.IntRange(0, 3).Draw(rt, "e") < density {
-				s.Deps = append(s.Deps, fmt.Sprintf("%s%d", prefix, j))
+				s.Deps = append(s.Deps, name(j))
 			}
 		}
 		s.Outcome = rapid.SampledFrom([]int{OK, OK, OK, Fail, FailAllow, CondFalse}).Draw(rt, "o")
@@ -253,7 +262,7 @@ func genGraph(rt *rapid.T, prefix string, maxN, depth int, condErr bool) *Gr {
 			s.Outcome = CondErr
 		}
 		if depth > 0 && s.Outcome != CondErr && rapid.IntRange(0, 5).Draw(rt, "nest") == 0 {
-			s.Nested = genGraph(rt, s.Name+"_", 3, depth-1, condErr)
+			s.Nested = genGraph(rt, s.ID+"_", 3, depth-1, condErr)
 			s.Allow = rapid.Bool().Draw(rt, "allow")
 			if s.Outcome != CondFalse {
 				s.Outcome = OK
